@@ -217,16 +217,29 @@ Fixpoint mismatch_from (i : N) (cs : list tcase) : list N :=
 Definition mismatch_ids := mismatch_from 0%N.
 
 (* what the model says; printed in replays and read by the known-finding recognisers:
-   EParse exception? result   |   EStr S-text I-text(Symbol wrapper read as undefined) S-marshal I-marshal *)
+   EParse exception? result   |   EStr S-text I-text S-marshal I-marshal *)
 Inductive exp :=
 | EParse (lone_surrogate_exception : bool) (r : option pval)
 | EStr (s i ms mi : sout)
 | ENone.
 
+(* I: the serialiser with the two recorded defects that change the text itself (not only its indentation):
+   a Symbol wrapper object is read as undefined (F-C19-4), and the entries of an allow-list replacer go through
+   a UTF-8 string, so their lone surrogates become U+FFFD (F-C19-5) *)
+Definition sanitize_entry (e : jv) : jv :=
+  match e with
+  | VStr s => VStr (sanitize_units s)
+  | VBoxStr s => VBoxStr (sanitize_units s)
+  | _ => e
+  end.
+Definition sanitize_repl (r : repl) : repl :=
+  match r with RList l => RList (map sanitize_entry l) | _ => r end.
+Definition stringify_I (v : jv) (r : repl) (space : jv) : sout := stringify_g true v (sanitize_repl r) space.
+
 Definition expected (c : tcase) : exp :=
   match c with
   | CParse t _ => EParse (lone_surrogate_input t) (parse_expected t)
-  | CStr v r space _ _ _ => EStr (stringify v r space) (stringify_g true v r space)
+  | CStr v r space _ _ _ => EStr (stringify v r space) (stringify_I v r space)
                                  (marshal_g false v) (marshal_g true v)
   | CFail => ENone
   end.
